@@ -867,6 +867,14 @@ static void check_names(const GModel &m) {
 }
 
 // ---------------------------------------------------------------- number codec test: g_fmt -> strtod (labelled TEST, not proof)
+static long g_bad_printed = 0;
+static void report_bad(const char *stream, double x, const char *printed, double y, bool consumed_all) {
+  if (g_bad_printed++ < 40000) std::printf("GB %s %s %s%s %s\n", stream, hexd(x).c_str(), printed, consumed_all ? "" : "+junk", hexd(y).c_str());
+}
+static bool adjacent_bits(double x, double y) {
+  uint64_t a, b; std::memcpy(&a, &x, 8); std::memcpy(&b, &y, 8);
+  return (a > b ? a - b : b - a) == 1;
+}
 static void codec_test(long n) {
   long bad = 0, tested = 0; std::string first_bad;
   fmt::Locale loc;
@@ -890,14 +898,14 @@ static void codec_test(long n) {
     double y = loc.strtod(p);
     ++tested;
     bool ok = (x == 0 && y == 0) || (hexd(x) == hexd(y) && *p == 0);
-    if (!ok) { if (!bad) first_bad = hexd(x) + " -> \"" + buf + "\" -> " + hexd(y); ++bad; }
+    if (!ok) { if (!bad) first_bad = hexd(x) + " -> \"" + buf + "\" -> " + hexd(y); ++bad; report_bad("random", x, buf, y, *p == 0); }
   }
   // the fixed list: infinities, extremes
   const double fx[] = {INFINITY, -INFINITY, DBL_MAX, -DBL_MAX, DBL_MIN, 4.9406564584124654e-324, 0.0, -0.0, 1e23, 9007199254740993.0, 5e-324, 0.1, 1.0 / 3};
   for (double x : fx) {
     char buf[64]; DAVID_GAY_GFMT::g_fmt(buf, x, 0); const char *p = buf; double y = loc.strtod(p); ++tested;
     bool ok = (x == 0 && y == 0) || (hexd(x) == hexd(y) && *p == 0);
-    if (!ok) { if (!bad) first_bad = hexd(x) + " -> \"" + buf + "\" -> " + hexd(y); ++bad; }
+    if (!ok) { if (!bad) first_bad = hexd(x) + " -> \"" + buf + "\" -> " + hexd(y); ++bad; report_bad("random", x, buf, y, *p == 0); }
   }
   std::printf("G tested=%ld bad=%ld first=%s\n", tested, bad, bad ? first_bad.c_str() : "-");
 }
@@ -909,7 +917,7 @@ static void codec_test(long n) {
 //  (c) a fixed list.
 // Output: "T tested=.. bad=.. ties=.. first=<hex x> <printed> <hex read back> tie=<0|1>"
 static void codec_boundary_test(long n) {
-  long bad = 0, tested = 0, ties = 0; std::string first_bad;
+  long bad = 0, tested = 0, ties = 0, nonadj = 0; std::string first_bad;
   fmt::Locale loc;
   auto one = [&](double x, bool on_tie) {
     if (std::isnan(x) || std::isinf(x)) return;
@@ -920,6 +928,8 @@ static void codec_boundary_test(long n) {
     ++tested;
     bool ok = (x == 0 && y == 0) || (hexd(x) == hexd(y) && *p == 0);
     if (!ok) {
+      report_bad("boundary", x, buf, y, *p == 0);
+      if (!adjacent_bits(x, y)) ++nonadj;
       if (on_tie) ++ties;
       if (!bad || (on_tie && first_bad.find("tie=1") == std::string::npos))
         first_bad = hexd(x) + " " + buf + " " + hexd(y) + (on_tie ? " tie=1" : " tie=0");
@@ -957,7 +967,7 @@ static void codec_boundary_test(long n) {
   const double fx[] = {4611686018999999488.0, -4611686018999999488.0, 4611686019000000512.0, 9007199254740992.0, 9007199254740994.0,
                        18014398509481984.0, 1e22, 1e23, 9.999999999999999e22, 5e-324, 1.7976931348623157e308, 2.2250738585072014e-308};
   for (double x : fx) one(x, x == 4611686018999999488.0 || x == -4611686018999999488.0);
-  std::printf("T tested=%ld bad=%ld ties=%ld first=%s\n", tested, bad, ties, bad ? first_bad.c_str() : "-");
+  std::printf("T tested=%ld bad=%ld ties=%ld nonadjacent=%ld first=%s\n", tested, bad, ties, nonadj, bad ? first_bad.c_str() : "-");
 }
 
 // ---------------------------------------------------------------- main
